@@ -31,6 +31,9 @@ impl<const N: usize> Sodg<N> {
         let vtx = self.vertices.get_mut(v1).unwrap();
         if vtx.branch == BRANCH_NONE {
             vtx.branch = BRANCH_STATIC;
+            vtx.data = Hex::empty();
+            vtx.persistence = Persistence::Empty;
+            vtx.edges = micromap::Map::new();
         }
         #[cfg(debug_assertions)]
         trace!("#add: vertex ν{v1} added");
